@@ -6,5 +6,7 @@ EXPLANATION = ("Bounded runtime contracts at the public interface: DecayGroup.ge
                "resonance per chain) and independence of the batch size.")
 ASSUMPTIONS = ["fit-fraction sum rule is claimed only when every chain contains exactly one of the listed resonances"]
 
+EXPLANATION += (' set_used_res / set_used_chains store each selected chain exactly once (proved on 5 structures).')
+
 from vt.contracts import amp_assembly, iface_amp  # noqa: F401,E402
 from vt.contracts import fitfrac_sym  # noqa: F401,E402
